@@ -372,6 +372,77 @@ impl Job for SortScript {
     }
 }
 
+/// An input order that drives the sort *of the tree under test* into its heapsort fallback: the
+/// McIlroy adversary is run once against `par_quicksort` on the calling thread (slices of this size
+/// are sorted sequentially) and the keys it ended up assigning are returned as dense ranks
+/// `0..n` in input order. Sorting any sequence with these relative keys repeats the same
+/// comparisons, so the caller can smuggle the order into another sort (the worker's tie-break on
+/// haystack length). Deterministic for a given tree, size and seed.
+pub fn killer_ranks(n: usize, seed: u64) -> Vec<u32> {
+    let mut rng = SplitMix::derive(seed, 11);
+    let mut keys = vec![u32::MAX; n];
+    for k in keys.iter_mut() {
+        if rng.below(8) == 0 {
+            *k = rng.below(1 << 20) as u32;
+        }
+    }
+    // (single-threaded use; the sort's bounds ask for Sync)
+    struct Sh<T>(T);
+    unsafe impl<T> Sync for Sh<T> {}
+    unsafe impl<T> Send for Sh<T> {}
+    impl<T> Sh<T> {
+        fn get(&self) -> &T {
+            &self.0
+        }
+    }
+    let st = Sh(std::cell::RefCell::new((keys, 1u32 << 20, 0u32)));
+    let done_hs = Sh(Cell::new(sim::with(|s| s.probes.get("sort.heapsort").copied().unwrap_or(0))));
+    let mut v: Vec<u32> = (0..n as u32).collect();
+    let flag = AtomicBool::new(false);
+    let _ = nucleo::verif_facade::par_quicksort(
+        &mut v,
+        |a: &u32, b: &u32| {
+            let mut st = st.get().borrow_mut();
+            let done_hs = done_hs.get();
+            let hs = sim::with(|s| s.probes.get("sort.heapsort").copied().unwrap_or(0));
+            if hs > done_hs.get() {
+                done_hs.set(hs);
+                let mut r = SplitMix::derive(seed, 31 + hs);
+                let base = st.1;
+                let n = st.0.len() as u64;
+                for k in st.0.iter_mut() {
+                    if *k == u32::MAX {
+                        *k = base + r.below(4 * n + 16) as u32;
+                    }
+                }
+                st.1 = base + 4 * n as u32 + 16;
+            }
+            let (x, y) = (*a as usize, *b as usize);
+            if st.0[x] == u32::MAX && st.0[y] == u32::MAX {
+                let freeze = if st.2 as usize == x { x } else { y };
+                st.0[freeze] = st.1;
+                st.1 += 1;
+            }
+            if st.0[x] == u32::MAX {
+                st.2 = x as u32;
+            } else if st.0[y] == u32::MAX {
+                st.2 = y as u32;
+            }
+            st.0[x] < st.0[y]
+        },
+        &flag,
+    );
+    let keys = st.0.into_inner().0;
+    // dense ranks, ties (and keys the sort never looked at) in index order
+    let mut order: Vec<usize> = (0..n).collect();
+    order.sort_by_key(|&i| (keys[i], i));
+    let mut ranks = vec![0u32; n];
+    for (r, i) in order.into_iter().enumerate() {
+        ranks[i] = r as u32;
+    }
+    ranks
+}
+
 pub fn generate(rng: &mut SplitMix, _focus: &str, thorough: bool) -> SortScript {
     // lengths around the thresholds: insertion sort (20), choose_pivot (50), sequential limit (2000)
     let len = if thorough && rng.below(40) == 0 {
